@@ -435,21 +435,36 @@ def s5(ctx, rep):
 
 
 def s6(ctx, rep, T):
-    d = ctx.fn('Language::write_types_for_anonymous_structs')
+    d0 = ctx.fn('Language::write_types_for_anonymous_structs')
+    d = ctx.fnx('Language::write_types_for_anonymous_structs', file='language/mod.rs')
     site = {'file': d['file'], 'line': d['line']}
-    ms = [m for m in d['matches'] if any(v.startswith('RustEnumVariant::') for a in m['arms'] for v in a['variants'])]
-    if not ms:
-        raise core.Incomplete('write_types_for_anonymous_structs: variant match not found')
-    arm = [a for a in ms[0]['arms'] if 'RustEnumVariant::AnonymousStruct' in a['variants']]
-    ok = bool(arm) and arm[0]['guard'] is None and 'Some' in arm[0]['body']
-    rep.check(ok, 'S6', 'helper-structs:every-struct-variant', 'every struct variant yields a helper struct', f"write_types_for_anonymous_structs selects struct variants under an extra condition (`{vt.show(arm[0]['guard'])[:60] if arm and arm[0]['guard'] else ''}`): the backends still reference `<Enum><Variant>Inner` for the variants it skips, but the type is never defined", site)
-    loops = [l for l in d['loops'] if l.get('kind') == 'for']
+    ms = [m for m in d0['matches'] if any(v.startswith('RustEnumVariant::') for a in m['arms'] for v in a['variants'])]
+
+    def selects_struct_variant(fr):
+        """`let RustEnumVariant::AnonymousStruct { .. } = v else { continue }` / `if let … = v { … }`: the frame under which only
+        struct variants get here"""
+        c = vt.unvar(fr.get('c')) if fr.get('k') == 'if' else None
+        if isinstance(c, dict) and c.get('k') == 'iflet' and [str(x).split('::')[-1] for x in c.get('variants', [])] == ['AnonymousStruct']:
+            return (not fr.get('neg')) if (fr.get('let_else_rest') or not (fr.get('let_else') or fr.get('early_exit'))) else bool(fr.get('neg'))
+        return fr.get('k') == 'arm' and [str(x).split('::')[-1] for x in fr.get('variants', [])] == ['AnonymousStruct'] and fr.get('guard') is None
+    ws = [c for c in d['calls'] if c.get('f') == 'write_struct']
+    if ms:
+        arm = [a for a in ms[0]['arms'] if 'RustEnumVariant::AnonymousStruct' in a['variants']]
+        ok = bool(arm) and arm[0]['guard'] is None and 'Some' in arm[0]['body']
+        why = vt.show(arm[0]['guard'])[:60] if arm and arm[0]['guard'] else ''
+    else:
+        # no selecting match: the selection is a frame around the write (let-else / if-let on the variant)
+        sel = [[fr for fr in c['guard'] if selects_struct_variant(fr)] for c in ws]
+        if not ws or not all(sel):
+            raise core.Incomplete('write_types_for_anonymous_structs: neither a match selecting RustEnumVariant::AnonymousStruct nor a let-else / if-let selection around write_struct found')
+        ok, why = True, ''
+    rep.check(ok, 'S6', 'helper-structs:every-struct-variant', 'every struct variant yields a helper struct', f"write_types_for_anonymous_structs selects struct variants under an extra condition (`{why}`): the backends still reference `<Enum><Variant>Inner` for the variants it skips, but the type is never defined", site)
+    loops = [l for l in d['loops'] if l.get('kind') == 'for' and not l.get('via')]
     for l in loops:
         chain = [c.get('f') for c in vt.calls_in(l['over'])]
         bad = [c for c in chain if c in ('filter', 'skip', 'take', 'step_by', 'skip_while', 'take_while', 'rev')]
         rep.check(not bad, 'S6', 'helper-structs:loop-unfiltered', 'only the AnonymousStruct selection', f'write_types_for_anonymous_structs iterates variants through {bad}', {'file': d['file'], 'line': l['line']})
-    ws = [c for c in d['calls'] if c.get('f') == 'write_struct']
-    conds = [fr for c in ws for fr in c['guard'] if fr.get('k') == 'if']
+    conds = [fr for c in ws for fr in c['guard'] if fr.get('k') == 'if' and not selects_struct_variant(fr)]
     rep.check(bool(ws) and not conds, 'S6', 'helper-structs:written-unconditionally', 'write_struct called for each', 'write_types_for_anonymous_structs writes the helper struct only under a condition', site)
     # member loops in printers
     n = 0
